@@ -248,8 +248,12 @@ func NewLogger(filename string, rule RotateRule, compress bool) (*RotateLogger, 
 
 // Write 将 data 写入轮换日志。
 func (l *RotateLogger) Write(data []byte) (int, error) {
+	// 调用方在 Write 返回后可能复用其缓冲区（io.Writer 约定不得保留 data），入队前先复制
+	buf := make([]byte, len(data))
+	copy(buf, data)
+
 	select {
-	case l.channel <- data:
+	case l.channel <- buf:
 		return len(data), nil
 	case <-l.done:
 		log.Println(string(data))
